@@ -61,6 +61,9 @@ class BuiltinsMixin:
             return VStr(z3.If(v.e >= 0, z3.IntToStr(v.e),
                               z3.Concat(z3.StringVal("-"),
                                         z3.IntToStr(-v.e))))
+        if isinstance(v, VRef):
+            # str(obj) is a function of the object
+            return VStr(self.uni.uf("str_of", ["ref"], "str")(v.e))
         return VStr(fresh("str", STR))
 
     def bi_isinstance(self, args, kw, st, fr):
@@ -147,6 +150,19 @@ class BuiltinsMixin:
         if isinstance(src, VTuple):
             return self.ev_List(ast.List(elts=[]), st, fr) if not src.items \
                 else self.list_from(src.items, st)
+        if isinstance(src, VRef) and src.cls == "set" and \
+                src.elem is not None:
+            # list(a_set): the members in some order
+            kb = base_tag(src.elem)
+            lst = self.alloc(st, "list", src.elem, "fromset")
+            arr = fresh("fromset_items", z3.ArraySort(INT, sort_of(kb)))
+            n = self.card(src, st)
+            self.set_list(lst, st, arr, n)
+            i = z3.Int(fresh_name("i"))
+            st.assume(z3.ForAll([i], z3.Implies(
+                z3.And(0 <= i, i < n),
+                z3.Select(self.s_arr(src, st), arr[i]))))
+            return lst
         if isinstance(src, VPy) and isinstance(src.obj, tuple) and src.obj \
                 and src.obj[0] in ("dictitems", "dictkeys", "dictvalues"):
             # a list made from a dict view: iteration / membership over a
